@@ -58,6 +58,7 @@ const (
 	opToggleFailReads
 	opFailNextPut
 	opAddShard
+	opDeleteWhile // scripted: SetMode(s, m); Delete(o); SetMode(s, RW)  (a removal attempted while shard s cannot record it, then s is writable again)
 )
 
 type op struct {
@@ -107,7 +108,9 @@ func buildUniverse(thorough bool) *universe {
 	// y: EC part. Put places it by the parent's ID (1 before 0), reads look it up by its own ID (0 before 1).
 	par := ew.Build(ew.ObjSpec{Cnr: cnr, ID: scratch.OIDForHRW("c20-parent-y", []int{1, 2, 0}), Owner: own, Type: object.TypeRegular})
 	y := uobj{name: "y", obj: ew.ECPart(scratch.OIDForHRW("c20-y", []int{0, 2, 1}), par, 0, []byte("ec part y"))}
-	u.objs = []uobj{x, y}
+	// l: a LINK object - the engine broadcasts it to every shard, so it is stored on all of them
+	l := uobj{name: "l", obj: ew.Build(ew.ObjSpec{Cnr: cnr, ID: scratch.OIDForHRW("c20-link", []int{0, 1, 2}), Owner: own, Payload: []byte("link"), Type: object.TypeLink})}
+	u.objs = []uobj{x, y, l}
 	if thorough {
 		u.objs = append(u.objs, reg("z", []int{1, 0, 2}))
 	}
@@ -119,7 +122,17 @@ func buildUniverse(thorough bool) *universe {
 		add(op{kind: opDelete, o: i, name: "Delete(" + o.name + ")"})
 	}
 	add(op{kind: opDrop, o: 0, name: "Drop(x)"})
+	// retried removals: the first attempt happens while one shard is read-only (it cannot record the mark),
+	// the shard is writable again afterwards; a later Delete/Drop letter is the retry
+	for s := 0; s < 2; s++ {
+		add(op{kind: opDeleteWhile, o: 2, s: s, m: mode.ReadOnly, name: fmt.Sprintf("DeleteWhileShardRO(l,%d)", s)})
+	}
 	if thorough {
+		add(op{kind: opDrop, o: 2, name: "Drop(l)"})
+		for s := 0; s < 2; s++ {
+			add(op{kind: opDeleteWhile, o: 2, s: s, m: mode.DegradedReadOnly, name: fmt.Sprintf("DeleteWhileShardDegraded(l,%d)", s)})
+			add(op{kind: opDeleteWhile, o: 0, s: s, m: mode.ReadOnly, name: fmt.Sprintf("DeleteWhileShardRO(x,%d)", s)})
+		}
 		add(op{kind: opDrop, o: 1, name: "Drop(y)"})
 		add(op{kind: opMarkRedundant, o: 0, name: "MarkRedundant(x)"})
 	}
@@ -145,7 +158,8 @@ type sys struct {
 	u       *universe
 	w       *ew.World
 	removed []string // per object: "" | how it was removed
-	unsure  []bool   // per object: a rejected operation may have been half-applied
+	unsure  []bool   // per object: a rejected operation may have been half-applied (until a later removal is accepted)
+	skipped []bool   // per object: the accepted removal left an unmarked copy on a shard that was fully able to record it
 	// last known metabase verdict per shard/object (the metabase of a degraded shard is closed but
 	// its content stays part of the state)
 	shadow map[string]string
@@ -166,7 +180,7 @@ func newSys(u *universe) *sys {
 	if err != nil {
 		panic(err)
 	}
-	s := &sys{u: u, w: w, removed: make([]string, len(u.objs)), unsure: make([]bool, len(u.objs)), shadow: map[string]string{}}
+	s := &sys{u: u, w: w, removed: make([]string, len(u.objs)), unsure: make([]bool, len(u.objs)), skipped: make([]bool, len(u.objs)), shadow: map[string]string{}}
 	s.observe()
 	return s
 }
@@ -222,6 +236,7 @@ func (s *sys) Apply(i int) (string, bool) {
 		res = errClass(err)
 		if err == nil && len(before) == 0 && s.removed[o.o] != "" && s.removed[o.o] != "tombstone" && len(s.holders(uo.obj)) > 0 {
 			s.removed[o.o] = "" // stored anew after its copies had been removed physically
+			s.skipped[o.o] = false
 		}
 	case opPutTomb:
 		uo := s.u.objs[o.o]
@@ -231,31 +246,32 @@ func (s *sys) Apply(i int) (string, bool) {
 				ord = append(ord, x)
 			}
 		}
+		able := s.ableHolders(uo.obj)
 		w.SetOrder(ord)
 		err := w.Eng.Put(ctx, uo.tomb, nil)
 		w.SetOrder(nil)
 		res = errClass(err)
 		if err == nil {
+			if s.removed[o.o] != "tombstone" {
+				s.skipped[o.o] = s.healthyHolderUnmarked(uo.obj, able)
+			}
 			s.removed[o.o] = "tombstone"
+			s.unsure[o.o] = false
 		} else if len(s.holders(uo.tomb)) > 0 {
 			s.unsure[o.o] = true
 		}
 	case opDelete, opDrop:
-		uo := s.u.objs[o.o]
-		before := s.holders(uo.obj)
-		var err error
-		how := "delete-mark"
-		if o.kind == opDelete {
-			err = w.Eng.Delete(ctx, addrOf(uo.obj), engine.GarbageMarkDefault)
-		} else {
-			err = w.Eng.Drop(ctx, addrOf(uo.obj))
-			how = "drop"
+		res = s.remove(o.o, o.kind == opDrop)
+	case opDeleteWhile:
+		if o.s >= len(w.Shards) || w.Mode(o.s) != mode.ReadWrite {
+			return "", false
 		}
-		res = errClass(err)
-		if err != nil {
-			s.unsure[o.o] = true
-		} else if len(before) > 0 && s.removed[o.o] == "" {
-			s.removed[o.o] = how
+		if err := w.SetMode(o.s, o.m); err != nil {
+			panic(err)
+		}
+		res = s.remove(o.o, false)
+		if err := w.SetMode(o.s, mode.ReadWrite); err != nil {
+			panic(err)
 		}
 	case opMarkRedundant:
 		uo := s.u.objs[o.o]
@@ -292,6 +308,66 @@ func (s *sys) Apply(i int) (string, bool) {
 	}
 	s.observe()
 	return res + "|" + strings.Join(s.obs, ","), true
+}
+
+// remove performs an engine Delete (default mark) or Drop and updates the removal history.
+func (s *sys) remove(oi int, drop bool) string {
+	uo := s.u.objs[oi]
+	before := s.holders(uo.obj)
+	able := s.ableHolders(uo.obj)
+	var err error
+	how := "delete-mark"
+	if drop {
+		err = s.w.Eng.Drop(context.Background(), addrOf(uo.obj))
+		how = "drop"
+	} else {
+		err = s.w.Eng.Delete(context.Background(), addrOf(uo.obj), engine.GarbageMarkDefault)
+	}
+	switch {
+	case err != nil:
+		s.unsure[oi] = true
+	case len(before) > 0 && (s.removed[oi] == "" || s.unsure[oi]):
+		// the removal was accepted: from now on the object must not be served, whatever earlier
+		// rejected attempts left behind
+		if s.removed[oi] == "" {
+			s.removed[oi] = how
+		}
+		s.unsure[oi] = false
+		s.skipped[oi] = s.healthyHolderUnmarked(uo.obj, able)
+	}
+	return errClass(err)
+}
+
+// ableHolders lists (before a removal) the shards that hold a copy and are fully able to record the
+// removal: read-write, metabase open, no armed read or write fault.
+func (s *sys) ableHolders(o *object.Object) []int {
+	var r []int
+	for _, h := range s.holders(o) {
+		st := s.w.Shards[h].Stor
+		if s.w.Mode(h) == mode.ReadWrite && !st.ReadsFailing() && st.PendingPutFaults() == 0 {
+			r = append(r, h)
+		}
+	}
+	return r
+}
+
+// healthyHolderUnmarked reports whether, right after an accepted removal, one of the shards that were
+// able to record it (see ableHolders; still read-write now) keeps regarding the object as available.
+func (s *sys) healthyHolderUnmarked(o *object.Object, able []int) bool {
+	w := s.w
+	for _, h := range able {
+		st := w.Shards[h].Stor
+		if w.Mode(h) != mode.ReadWrite || st.ReadsFailing() {
+			continue
+		}
+		if ok, _ := st.Inner().Exists(addrOf(o)); !ok {
+			continue // physically gone
+		}
+		if ex, err := w.Shards[h].Sh.Exists(addrOf(o), true); ex && err == nil {
+			return true
+		}
+	}
+	return false
 }
 
 func shardDesc(w *ew.World, i int) string {
@@ -375,7 +451,7 @@ func (s *sys) observe() {
 			case ok && len(hs) == 0:
 				s.fail("phantom:"+rd, ctxs)
 			case ok && s.removed[oi] != "":
-				s.fail(fmt.Sprintf("removed-object-readable:%s:removed-by=%s", s.mechanism(uo.obj, hs, rd), s.removed[oi]), ctxs)
+				s.fail(fmt.Sprintf("removed-object-readable:%s:removed-by=%s", s.mechanism(oi, uo.obj, hs, rd), s.removed[oi]), ctxs)
 			case !ok && s.removed[oi] == "" && readable:
 				s.fail(fmt.Sprintf("stored-object-hidden:%s:answer=%s", rd, cls), ctxs)
 			}
@@ -384,7 +460,7 @@ func (s *sys) observe() {
 }
 
 // mechanism names why a removed object could be served (normalised class of the failure).
-func (s *sys) mechanism(o *object.Object, hs []int, rd string) string {
+func (s *sys) mechanism(oi int, o *object.Object, hs []int, rd string) string {
 	w := s.w
 	marked := func(i int) bool {
 		v := s.shadow[fmt.Sprintf("%d/%s", i, o.GetID())]
@@ -409,6 +485,9 @@ func (s *sys) mechanism(o *object.Object, hs []int, rd string) string {
 		}
 	}
 	switch {
+	case unmarkedHealthy && s.skipped[oi]:
+		// the shard was read-write and fault-free when the removal was accepted, yet it was not told
+		return "accepted-removal-skipped-a-healthy-writable-holder-shard"
 	case unmarkedHealthy:
 		return "removal-not-recorded-on-a-holder-shard"
 	case degradedMarked:
@@ -449,7 +528,7 @@ func (s *sys) Key() string {
 			}
 		}
 	}
-	fmt.Fprintf(&sb, "|%v|%v", s.removed, s.unsure)
+	fmt.Fprintf(&sb, "|%v|%v|%v", s.removed, s.unsure, s.skipped)
 	return sb.String()
 }
 
